@@ -93,8 +93,18 @@ func runE2E(r *Report, known []Finding, sp e2eSpec) {
 				ast, _ := syntax.Parse(j.p, flags)
 				var local []e2eDis
 				nontriv := 0
-				for k := 0; k < nh; k++ {
+				nhp := nh
+				if j.i < len(sp.probes) {
+					nhp = nh + 24 // probes also meet inputs stretched across the internal budgets and windows, in systematic variants
+				}
+				for k := 0; k < nhp; k++ {
 					h := GenHaystack(j.r, ast, false)
+					if k >= nh {
+						v := k - nh
+						if sh := GenStretchedVariant(j.r, ast, v%3, v%6 >= 3 && v%12 < 6); sh != nil {
+							h = sh
+						}
+					}
 					if k%7 == 6 { // a long one: window logic, prefilter blocks
 						var big []byte
 						for len(big) < 400 {
